@@ -718,28 +718,39 @@ def glue_trio() -> None:
         thread_name = frame.pyframe.f_locals.get("thread_name")
         worker_fn = frame.pyframe.f_locals.get("worker_fn")
         sync_fn = frame.pyframe.f_locals.get("sync_fn")
-        if not (thread_name and worker_fn and sync_fn):  # pragma: no cover
+        if thread_name is None or worker_fn is None or sync_fn is None:
             # We're in the initial setup-y part, thread not running yet
+            # (pragma: no cover)
             return None
 
-        # Find the thread that's hosting the sync_fn
+        # Find the thread that's hosting the sync_fn, and the actual frames
+        # where the sync_fn and its callees are running. Several threads
+        # can have this very name (if it was given explicitly); the one
+        # that works for us shares our task_register.
+        task_register = frame.pyframe.f_locals.get("task_register")
+        inner_frame: Optional[types.FrameType] = None
+        previous: Optional[types.FrameType] = None
         for thread in threading.enumerate():
-            if thread.name is thread_name:
-                break
+            if thread.name is not thread_name:
+                continue
+            inner_frame = sys._current_frames().get(thread.ident or 0)
+            previous = None
+            current = inner_frame
+            while current is not None and current.f_code is not worker_fn.__code__:
+                previous = current
+                current = current.f_back
+            if current is None or previous is None:
+                # We either didn't find the worker_fn, or it didn't have a
+                # callee. Thread isn't doing anything interesting yet.
+                continue
+            if (
+                task_register is not None
+                and current.f_locals.get("task_register") is not task_register
+            ):
+                continue
+            break
         else:  # pragma: no cover
             # Thread isn't running yet
-            return None
-
-        # Find the actual frames where the sync_fn and its callees are running
-        inner_frame = sys._current_frames().get(thread.ident or 0)
-        previous: types.FrameType | None = None
-        current = inner_frame
-        while current is not None and current.f_code is not worker_fn.__code__:
-            previous = current
-            current = current.f_back
-        if current is None or previous is None:  # pragma: no cover
-            # We either didn't find the worker_fn, or it didn't have a callee.
-            # Thread isn't doing anything interesting yet.
             return None
 
         frame.hide = True
